@@ -39,6 +39,12 @@ Theorem C07_ordered_repetition_refuted :
 Proof. exact ordered_repetition_refuted. Qed.
 Print Assumptions C07_ordered_repetition_refuted.
 
+Theorem C07_ordered_repetition_any_hasher_refuted : forall H : pystr -> pystr,
+  hash_pure H ordered_mode (VList [VAtom (AInt 1); VAtom (AInt 2); VAtom (AInt 1)]) =
+  hash_pure H ordered_mode (VList [VAtom (AInt 1); VAtom (AInt 1); VAtom (AInt 2)]).
+Proof. exact ordered_repetition_refuted_any. Qed.
+Print Assumptions C07_ordered_repetition_any_hasher_refuted.
+
 (* The theorem: nested-set mode and nested-multiset mode, all tag-safe well-formed values. *)
 Theorem C07_hash_inj_partial :
   forall (H : pystr -> pystr),
